@@ -19,11 +19,12 @@ import (
 )
 
 type Case struct {
-	Mode    string     `json:"mode"`   // "ci" | "ctl"
+	Mode    string     `json:"mode"`   // "ci" | "ctl" | "run"
 	Global  string     `json:"global"` // --rate-limiter of the gateway: "", "local", "remote"
 	Skip    bool       `json:"skip,omitempty"` // ci: ClusterInfo built with neither rest config nor health check (skipSyncEndpoints)
 	History []WObj     `json:"history,omitempty"`
 	Ops     []COp      `json:"ops,omitempty"`
+	Run     *RunScript `json:"run,omitempty"`
 	Probes  []mg.Attrs `json:"probes"`
 }
 
